@@ -123,6 +123,12 @@ def scenarios(ctx, thorough):
                             k += 1
                         for a, b in sel:
                             scns.append(dict(base, before=a, after=b))
+    # on-close hooks that fail (generic and network level): the close must go on and reach the transport
+    for drv in ("generic", "network"):
+        for st in ("idle", "eof", "err", "inflight"):
+            for closes in (1, 2):
+                for cb in (("eof", "stay") if not thorough else ("eof", "err", "stay")):
+                    scns.append({"driver": drv, "state": st, "closes": closes, "closebeh": cb, "readdelay_us": 40, "before": "", "after": "", "onclose": True})
     # the built-in transports under the same contract (real telnet over loopback, standard SSH against the in-process server)
     for tr in ("telnet", "standard"):
         for st in ("idle", "inflight", "eof"):
